@@ -67,13 +67,22 @@ func (nw *network) signedVote(idx int, typ kproto.SignedMsgType, h uint64, r uin
 	return v
 }
 
+// sceneChanged: the height-3 scene is built on a chain whose validator set changes between heights 2 and 3
+// (block 1's execution reports validator 1 with power 40; in force from height 3)
+var sceneChanged = false
+
 func newScene(initial bool) (sc *scene, err error) {
 	defer func() {
 		if r := recover(); r != nil {
 			err = fmt.Errorf("scene: %v", r)
 		}
 	}()
-	nw, err := newNetwork(4)
+	var nw *network
+	if sceneChanged && !initial {
+		nw, err = newNetworkChanging(4, 1, []int64{40, 10, 10, 10})
+	} else {
+		nw, err = newNetwork(4)
+	}
 	if err != nil {
 		return nil, err
 	}
@@ -272,8 +281,8 @@ func (sc *scene) mutate(pb *kproto.Block, name string) error {
 			return nil
 		}
 		lc.Signatures = lc.Signatures[:len(lc.Signatures)-1]
-	case "lc.sig1.absent", "lc.sig4.absent", "lc.two-absent":
-		need := map[string]int{"lc.sig1.absent": 1, "lc.sig4.absent": 4, "lc.two-absent": 2}[name]
+	case "lc.sig1.absent", "lc.sig4.absent", "lc.two-absent", "lc.sig34.absent", "lc.sig34.absent-retimed":
+		need := map[string]int{"lc.sig1.absent": 1, "lc.sig4.absent": 4, "lc.two-absent": 2, "lc.sig34.absent": 4, "lc.sig34.absent-retimed": 4}[name]
 		if err := needSigs(need); err != nil {
 			return nil
 		}
@@ -282,6 +291,13 @@ func (sc *scene) mutate(pb *kproto.Block, name string) error {
 			lc.Signatures[0] = absent
 		case "lc.sig4.absent":
 			lc.Signatures[3] = absent
+		case "lc.sig34.absent":
+			lc.Signatures[2], lc.Signatures[3] = absent, absent
+		case "lc.sig34.absent-retimed":
+			lc.Signatures[2], lc.Signatures[3] = absent, absent
+			if cm, err := types.CommitFromProto(lc); err == nil && sc.st.LastValidators != nil {
+				pb.Header.Time = cstate.MedianTime(cm, sc.st.LastValidators)
+			}
 		default:
 			lc.Signatures[0], lc.Signatures[1] = absent, absent
 		}
@@ -539,9 +555,12 @@ func TestBlockFields(t *testing.T) {
 	res := mbt.NewResult()
 	defer res.Write()
 	initial := os.Getenv("BF_INITIAL") == "1"
+	sceneChanged = os.Getenv("BF_CHANGED") == "1"
 	sceneName := "height3"
 	if initial {
 		sceneName = "initial"
+	} else if sceneChanged {
+		sceneName = "changed"
 	}
 	nScenes := mbt.EnvInt("BF_SCENES", 4)
 	var scenes []*scene
@@ -557,7 +576,13 @@ func TestBlockFields(t *testing.T) {
 	for _, sc := range scenes {
 		r := sc.receive(sc.node.newExecutor(), clonePB(sc))
 		if r.stage != "ok" || r.hdrChanged || r.idChanged {
-			res.Mismatch("infra:base-invalid", fmt.Sprintf("the genuine block of scene %s is not accepted: %s %s (hdrChanged=%v idChanged=%v)", sceneName, r.stage, r.err, r.hdrChanged, r.idChanged), nil)
+			sig := "infra:base-invalid"
+			if sceneChanged {
+				// the scene is the static one plus a set change the code performed itself: a genuine block (last commit
+				// and median time by the PREVIOUS set) that is refused here is a verdict, not a broken harness
+				sig = "blockfields:changed:genuine-block-rejected"
+			}
+			res.Mismatch(sig, fmt.Sprintf("the genuine block of scene %s is not accepted: %s %s (hdrChanged=%v idChanged=%v)", sceneName, r.stage, r.err, r.hdrChanged, r.idChanged), nil)
 			return
 		}
 	}
